@@ -36,6 +36,8 @@ INV = [
      'implies(it >= 1, velocity >= _cMinimumVelocity and range_vector.y >= _cMaximumDrop and '
      'self.alt0 + range_vector.y >= _cMinimumAltitude)'),
     ('iteration-counter', 'it >= 0'),
+    # C11/C18: what is requested to be recorded does not change the integration step
+    ('the-integration-step-is-the-one-the-calculator-was-initialised-with', 'self.calc_step == old(self.calc_step)'),
 ] + SOCK + [
     ('winds-sorted', f'forall(0, len({WSW}), lambda i: forall(i + 1, len({WSW}), lambda j: '
                      f'raw({WSW}[i].until_distance) <= raw({WSW}[j].until_distance)))'),
